@@ -531,6 +531,206 @@ func offer(w *tj.Writer, r *rand.Rand, idx int) {
 	}
 }
 
+// ---------------------------------------------------------------- two offers in a row
+// A failed block sync leaves the node on a prefix of the peer's chain with its own removed blocks kept as temporary
+// blocks.  A second peer then offers a near fork whose last block is corrupt: fast sync must restore the blocks it
+// removed ("the original blocks are restored and the peer is banned") whatever the earlier attempt left behind.
+func corruptLast(a *node.Node, blocks []*blockchain.Block, at int, nval int) []*blockchain.Block {
+	res := append([]*blockchain.Block{}, blocks[:at+1]...)
+	last := res[at]
+	hdr := *last.Header
+	sr := append([]byte{}, hdr.StateRoot...)
+	sr[0] ^= 0xff
+	hdr.StateRoot = sr
+	gen := 0
+	for id := 1; id <= nval; id++ {
+		if bytes.Equal(node.Validator(id).Address, hdr.GeneratorAddress) {
+			gen = id
+		}
+	}
+	hdr.Sign(a.ChainID, node.Validator(gen).PrivKey)
+	res[at] = &blockchain.Block{Header: &hdr, Transactions: last.Transactions, Assets: last.Assets}
+	return res
+}
+
+func offerFrom(a *node.Node, fp *fakePeer) (error, bool) {
+	addrs, err := fp.conn.MultiAddress()
+	if err != nil || len(addrs) == 0 {
+		return fmt.Errorf("fake peer has no address"), false
+	}
+	ai, _ := p2p.AddrInfoFromMultiAddr(addrs[0])
+	if err := a.Conn.Connect(context.Background(), *ai); err != nil {
+		return err, false
+	}
+	time.Sleep(50 * time.Millisecond)
+	done := make(chan error, 1)
+	go func() {
+		defer func() {
+			if e := recover(); e != nil {
+				done <- fmt.Errorf("panic: %v", e)
+			}
+		}()
+		done <- a.Ex.VerifProcess(fp.blocks[len(fp.blocks)-1], fp.conn.ID())
+	}()
+	select {
+	case e := <-done:
+		return e, true
+	case <-time.After(25 * time.Second):
+		return fmt.Errorf("hang"), true
+	}
+}
+
+func doubleOffer(w *tj.Writer, r *rand.Rand, idx int) {
+	fail := func(e error) {
+		mu.Lock()
+		out.Errors = append(out.Errors, fmt.Sprintf("double offer %d: %v", idx, e))
+		mu.Unlock()
+	}
+	cfg := cfg3(true)
+	ts := uint32(time.Now().Unix()) - uint32(cfg.Now)*node.BlockTime - node.BlockTime/2
+	a, err := node.New(cfg, nil, ts)
+	if err != nil {
+		fail(err)
+		return
+	}
+	defer a.Close()
+	b, err := node.New(cfg3(false), nil, ts)
+	if err != nil {
+		fail(err)
+		return
+	}
+	defer b.Close()
+	P := 1 + r.Intn(4)
+	fa := 1 + r.Intn(4)
+	fb := 9 + fa + r.Intn(6) // far ahead: block sync
+	good := 1 + r.Intn(4)    // blocks of the first peer applied before the corrupt one
+	slot := 1
+	for i := 0; i < P; i++ {
+		if _, err := a.Extend(slot, 0); err != nil {
+			fail(err)
+			return
+		}
+		if _, err := b.Extend(slot, 0); err != nil {
+			fail(err)
+			return
+		}
+		slot++
+	}
+	sa, sb := slot, slot+1
+	for i := 0; i < fa; i++ {
+		if _, err := a.Extend(sa, 0); err != nil {
+			fail(err)
+			return
+		}
+		sa += 4
+	}
+	for i := 0; i < fb; i++ {
+		if _, err := b.Extend(sb, 0); err != nil {
+			fail(err)
+			return
+		}
+		sb++
+	}
+	far := chainBlocks(b)
+	fp1, err := newFakePeer(append(corruptLast(a, far, P+good+1, cfg.NVal), far[P+good+2:]...), false)
+	if err != nil {
+		fail(err)
+		return
+	}
+	defer fp1.conn.Stop()
+	if e, ok := offerFrom(a, fp1); !ok {
+		fail(e)
+		return
+	}
+	mid, err := a.Observe()
+	if err != nil {
+		fail(err)
+		return
+	}
+	scenario := map[string]interface{}{"double": true, "behaviour": "corrupt-after-failed-sync", "P": P, "forkA": fa, "forkB": fb, "goodBlocksOfFirstPeer": good, "tempAfterFirst": mid.Temp}
+	if len(a.Conn.BlacklistedPeers()) > 0 || len(mid.Temp) == 0 || mid.TipH < 2 {
+		// the first attempt did not end the way this scenario needs (peer banned: the shared loopback address is closed)
+		mu.Lock()
+		out.Outcomes["double:not-applicable"]++
+		mu.Unlock()
+		return
+	}
+	tipBefore := a.Tip()
+	finBefore := mid.Fin
+	// second peer: the node's own chain up to tip-1, then a fork of two blocks, the last one corrupt
+	c, err := node.New(cfg3(false), nil, ts)
+	if err != nil {
+		fail(err)
+		return
+	}
+	defer c.Close()
+	ab := chainBlocks(a)
+	for _, blk := range ab[1 : len(ab)-1] {
+		if err := c.Ex.VerifProcess(blk, "12D3KooWverifpeer"); err != nil {
+			fail(err)
+			return
+		}
+	}
+	s2 := a.Slot.GetSlotNumber(tipBefore.Header.Timestamp) + 1
+	for i := 0; i < 2; i++ {
+		if _, err := c.Extend(s2, 0); err != nil {
+			fail(err)
+			return
+		}
+		s2++
+	}
+	cb := chainBlocks(c)
+	fp2, err := newFakePeer(corruptLast(a, cb, len(cb)-1, cfg.NVal), false)
+	if err != nil {
+		fail(err)
+		return
+	}
+	defer fp2.conn.Stop()
+	offered := fp2.blocks[len(fp2.blocks)-1]
+	perr, ok := offerFrom(a, fp2)
+	if !ok {
+		fail(perr)
+		return
+	}
+	if perr != nil && perr.Error() == "hang" {
+		viol("hang:sync:double", "process() of a block offered after an earlier failed sync did not return within 25 s", scenario)
+		return
+	}
+	if perr != nil && strings.HasPrefix(perr.Error(), "panic:") {
+		viol("panic:sync", perr.Error(), scenario)
+		return
+	}
+	after, err := a.Observe()
+	if err != nil {
+		viol("observe-after-sync", err.Error(), scenario)
+		return
+	}
+	tip := a.Tip().Header
+	outcome := "partial"
+	if bytes.Equal(tip.ID, offered.Header.ID) {
+		outcome = "peer"
+	} else if bytes.Equal(tip.ID, tipBefore.Header.ID) {
+		outcome = "own"
+	}
+	if len(a.Conn.BlacklistedPeers()) > 0 {
+		outcome += "+ban"
+	}
+	finHdr, _ := a.Chain.DataAccess().GetBlockHeaderByHeight(finBefore)
+	f := map[string]interface{}{
+		"a": map[string]uint32{"h": tipBefore.Header.Height, "mhp": tipBefore.Header.MaxHeightPrevoted}, "b": map[string]uint32{"h": offered.Header.Height, "mhp": offered.Header.MaxHeightPrevoted},
+		"common": tipBefore.Header.Height - 1, "fin": finBefore, "n": 3, "genKnown": 1,
+		"slotGap": a.Slot.GetSlotNumber(uint32(time.Now().Unix())) - a.Slot.GetSlotNumber(finHdr.Timestamp),
+		"behaviour": "corrupt", "child": 0,
+	}
+	mu.Lock()
+	out.Offers++
+	out.Outcomes["double:"+outcome]++
+	out.Paths["near:corrupt:after-failed-sync"]++
+	w.Emit(map[string]interface{}{"ev": "offer", "f": f, "outcome": outcome, "finBefore": finBefore, "finAfter": after.Fin, "finalIdsSame": 1,
+		"scenario": scenario, "err": fmt.Sprint(perr), "temp": after.Temp})
+	mu.Unlock()
+}
+
 func main() {
 	if len(os.Args) < 6 {
 		fmt.Fprintln(os.Stderr, "usage: c19 peers-table.txt trace.ndjson out.json nHandlerCases nOffers")
@@ -566,6 +766,24 @@ func main() {
 				}
 			}()
 			offer(w, rr, i)
+		}()
+	}
+	for i := 0; i < no/5; i++ {
+		i := i
+		rr := rand.New(rand.NewSource(seed*104729 + int64(i)))
+		wg.Add(1)
+		sem <- struct{}{}
+		go func() {
+			defer wg.Done()
+			defer func() { <-sem }()
+			defer func() {
+				if e := recover(); e != nil {
+					mu.Lock()
+					out.Errors = append(out.Errors, fmt.Sprintf("double offer %d: harness panic %v", i, e))
+					mu.Unlock()
+				}
+			}()
+			doubleOffer(w, rr, i)
 		}()
 	}
 	wg.Wait()
